@@ -166,16 +166,41 @@ def gen_mode(rng, jmax):
             row.append(str(Fraction(p, q)))
         rho.append(row)
     tk = [[rng.randint(-L, 2 * L) if rng.random() < 0.2 else rng.randint(0, L - 1) for _ in range(c)] for _ in range(r)]
-    mask = [[(0 if rng.random() < 0.25 else rng.choice(MASK_VALUES)) for _ in range(c)] for _ in range(r)]
+    mask = [[(0 if rng.random() < 0.25 else rng.choice(MASK_VALUES + TINY_VALUES[:3])) for _ in range(c)] for _ in range(r)]
+    if rng.random() < 0.25:     # next to, but not at, the special radii 0 and 1
+        i, k = rng.randrange(r), rng.randrange(c)
+        rho[i][k] = rng.choice(['9999999/10000000', '10000001/10000000', '1/1000000000', '999999/1000000', '1000001/1000000'])
     return {'op': 'mode', 'j': j, 'normalize': rng.random() < 0.5, 'L': L, 'rho': rho, 'tk': tk, 'mask': mask}
+
+
+# non-zero weights far below any absolute tolerance (apodised apertures, interpolation wings, denormals)
+TINY_VALUES = [1e-10, -3e-12, 1e-300, 5e-324, 1e-9, 2.5e-9, 9e-9, 1e-8, 1e-20]
 
 
 def gen_coords(rng, maxn):
     r, c = rng.randint(2, maxn), rng.randint(2, maxn)
     if rng.random() < 0.2:
         c = r
-    return {'op': 'coords', 'mask': rnd_mask(rng, r, c, values=rng.random() < 0.5),
-            'j': rng.randint(2, 21), 'scale': rng.choice([2, 0.5, -3, 10.0, 255])}
+    t = rng.random()
+    if t < 0.35:
+        # a weighted mask whose wings carry tiny non-zero values: still part of the support
+        m = asym_support(rng, r, c) if (r >= 3 and c >= 3 and rng.random() < 0.5) else rnd_mask(rng, r, c)
+        p_tiny = rng.choice([0.3, 0.6, 0.9])
+        m = [[((rng.choice(TINY_VALUES) if rng.random() < p_tiny else rng.choice(MASK_VALUES)) if v else 0) for v in row] for row in m]
+        scale = rng.choice([2, -3, 1e6])            # never towards underflow: that would change the support
+    else:
+        m = rnd_mask(rng, r, c, values=rng.random() < 0.5)
+        scale = rng.choice([2, 0.5, -3, 10.0, 255, 1e-12, 1e-30, 1e12])
+    return {'op': 'coords', 'mask': m, 'j': rng.randint(2, 21), 'scale': scale}
+
+
+def gen_large(rng, k):
+    """>= 2**20 samples, sizes not divisible by powers of two, an off-centre half disc given by parameters"""
+    r, c = rng.choice([(1024, 1031), (1049, 1000), (1500, 701), (1027, 1025)])
+    cr, cc = rng.randint(r // 4, 3 * r // 4), rng.randint(c // 4, 3 * c // 4)
+    rad = rng.randint(min(r, c) // 8, min(r, c) // 3)
+    return {'op': 'coords_large', 'shape': [r, c], 'disc': [cr, cc, rad], 'half': rng.choice(['u', 'd', 'l', 'r', 'none']),
+            'dtype': rng.choice(['bool', 'float64', 'uint8', 'float32']), 'j': rng.choice([2, 3, 4, 11])}
 
 
 def asym_support(rng, r, c):
@@ -229,7 +254,11 @@ def gen_history(rng, maxn):
     for i in order[:4]:
         steps.append({'fill': i, 'normalize': norm0 if rng.random() < 0.8 else (not norm0), 'vectorize': rng.random() < 0.3,
                       'call': rng.choice(['basis', 'basis', 'basis+fit', 'fit', 'remove'])})
-    return {'op': 'history', 'dtype': rng.choice(HIST_DTYPES), 'fills': fills, 'modes': modes, 'steps': steps,
+    dtype = rng.choice(HIST_DTYPES)
+    if dtype in ('float64', 'float32') and rng.random() < 0.5:
+        for st in steps:                             # the buffer holds weight * support: same support
+            st['weight'] = rng.choice([1, 1e-10, -3e-12, 1e-30] + ([1e-300] if dtype == 'float64' else []))
+    return {'op': 'history', 'dtype': dtype, 'fills': fills, 'modes': modes, 'steps': steps,
             'opd': [rng.randint(-3, 3) for _ in range(4)]}
 
 
@@ -286,8 +315,10 @@ def generate(rng, tier):
         yield gen_mode(rng, jmax)
     yield {'op': 'mode', 'j': 0, 'normalize': True, 'L': 4, 'rho': [['1/2']], 'tk': [[1]], 'mask': [[1]]}
     # (4) default coordinates
-    for _ in range(70 if quick else 900):
+    for _ in range(90 if quick else 1000):
         yield gen_coords(rng, 7 if quick else 9)
+    for k in range(2 if quick else 8):
+        yield gen_large(rng, k)
     # (5) call histories: one mask buffer refilled in place between zernike_basis / zernike_fit calls
     prev = None
     for k in range(45 if quick else 400):
@@ -326,7 +357,7 @@ def nontrivial(c):
     if c['op'] == 'mode':
         flat = [v for row in c['mask'] for v in row]
         return c['j'] >= 4 and any(flat) and len(flat) > 1
-    if c['op'] in ('gram', 'bound'):
+    if c['op'] in ('gram', 'bound', 'coords_large'):
         return True
     if c['op'] == 'history':
         return len({json_key(c['fills'][s_['fill']]) for s_ in c['steps']}) >= 2
@@ -494,7 +525,10 @@ def run_impl(c):
             res['zj_dtypes'] = {dt: np.asarray(lentil.zernike(sup.astype(dt), j), dtype=float).tolist()
                                 for dt in ('uint8', 'int32', 'float32')}
             res['mask_changed'] = not np.array_equal(mask, keep)
+            res['variants'] = coords_variants(lentil, mask, j, res)
             return res
+        if c['op'] == 'coords_large':
+            return run_large(lentil, c)
         if c['op'] == 'history':
             return run_history(lentil, c)
         if c['op'] == 'seq':
@@ -508,6 +542,105 @@ def run_impl(c):
     except Exception as e:
         return {'err': type(e).__name__}
     raise ValueError(c['op'])
+
+
+class TaggedArray(np.ndarray):
+    """an ndarray subclass that only carries metadata"""
+    def __new__(cls, a, tag='pupil'):
+        obj = np.asarray(a).view(cls)
+        obj.tag = tag
+        return obj
+
+    def __array_finalize__(self, obj):
+        self.tag = getattr(obj, 'tag', None)
+
+
+def coords_variants(lentil, mask, j, res):
+    """the same mask data handed over in other legal array_like forms and, for the coordinates, with other
+    values on the same support: every result is reported as its largest deviation from the plain-ndarray call"""
+    import tempfile
+    out = {}
+    rho0, th0 = np.asarray(res['rho'], dtype=float), np.asarray(res['theta'], dtype=float)
+    zj0, raw0 = np.asarray(res['zj'], dtype=float), np.asarray(res['zj_raw'], dtype=float)
+    forms = {
+        'nested lists': lambda: mask.tolist(),
+        'np.ma.MaskedArray (nothing masked)': lambda: np.ma.MaskedArray(mask.copy()),
+        'np.matrix': lambda: np.matrix(mask.copy()),
+        'metadata-carrying ndarray subclass': lambda: TaggedArray(mask.copy()),
+        'Fortran-ordered copy': lambda: np.asfortranarray(mask),
+        'strided view': lambda: np.repeat(np.repeat(mask, 2, axis=0), 3, axis=1)[::2, ::3],
+        'support as bool': lambda: mask != 0,
+        'support as float 0/1': lambda: (mask != 0).astype(float),
+        'sign-flipped weights': lambda: -mask,
+    }
+    with tempfile.TemporaryDirectory(dir='/var/tmp') as d:
+        def memmap():
+            mm = np.memmap(d + '/m.dat', dtype=mask.dtype, mode='w+', shape=mask.shape)
+            mm[...] = mask
+            return mm
+        forms['np.memmap'] = memmap
+        for name, mk in forms.items():
+            try:
+                a = mk()
+                keep = np.array(a, copy=True)
+                rho, th = lentil.zernike_coordinates(a)
+                dev = float(max(np.max(np.abs(np.asarray(rho, dtype=float) - rho0)),
+                                np.max(np.abs(np.cos(np.asarray(th, dtype=float)) - np.cos(th0))),
+                                np.max(np.abs(np.sin(np.asarray(th, dtype=float)) - np.sin(th0)))))
+                z = np.asarray(lentil.zernike(a, j), dtype=float)
+                out[name] = {'coords_dev': dev, 'mode_dev': float(np.max(np.abs(z.reshape(zj0.shape) - zj0))),
+                             'changed': not np.array_equal(np.asarray(a), np.asarray(keep))}
+                del a
+            except Exception as e:
+                out[name] = {'err': type(e).__name__}
+    # truthy-but-not-True flags
+    for name, flag, ref in (('normalize=np.True_', np.True_, zj0), ('normalize=1', 1, zj0),
+                            ('normalize=np.False_', np.False_, raw0), ('normalize=0', 0, raw0)):
+        try:
+            z = np.asarray(lentil.zernike(mask, j, normalize=flag), dtype=float)
+            out[name] = {'mode_dev': float(np.max(np.abs(z - ref)))}
+        except Exception as e:
+            out[name] = {'err': type(e).__name__}
+    return out
+
+
+def large_mask(c):
+    r, cdim = c['shape']
+    cr, cc, rad = c['disc']
+    i, j = np.ogrid[0:r, 0:cdim]
+    m = (i - cr) ** 2 + (j - cc) ** 2 <= rad * rad
+    h = c['half']
+    if h != 'none':
+        m = m & {'u': i <= cr, 'd': i >= cr, 'l': j <= cc, 'r': j >= cc}[h]
+    return m
+
+
+def run_large(lentil, c):
+    sup = large_mask(c)
+    mask = sup if c['dtype'] == 'bool' else sup.astype(c['dtype'])
+    rho, theta = lentil.zernike_coordinates(mask)
+    rho = np.asarray(rho, dtype=float)
+    z = np.asarray(lentil.zernike(mask, c['j']), dtype=float)
+    # exact reference by integer sums
+    idx_i, idx_j = np.nonzero(sup)
+    cnt = int(sup.sum())
+    si, sj = int(idx_i.sum()), int(idx_j.sum())
+    i, j = np.ogrid[0:sup.shape[0], 0:sup.shape[1]]
+    d2 = ((i * cnt - si).astype(float) ** 2 + (j * cnt - sj).astype(float) ** 2) / float(cnt) ** 2
+    dmax2 = float(d2[sup].max())
+    e = np.sqrt(d2 / dmax2)
+    k = np.unravel_index(np.argmax(np.abs(rho - e)), rho.shape)
+    res = {'rho_dev': float(np.abs(rho - e).max()), 'at': [int(k[0]), int(k[1])], 'rho_at': float(rho[k]), 'exp_at': float(e[k]),
+           'centroid': [si / cnt, sj / cnt], 'max_rho_on_mask': float(rho[sup].max()),
+           'outside_nonzero': bool(np.any(z[~sup] != 0)), 'shape_ok': z.shape == sup.shape, 'npix': cnt}
+    jn = c['j']
+    if jn in (4, 11):
+        t = e ** 2
+        ref = (math.sqrt(3) * (2 * t - 1) if jn == 4 else math.sqrt(5) * (6 * t * t - 6 * t + 1)) * sup
+        res['mode_dev'] = float(np.abs(z - ref).max())
+    else:
+        res['tilt_sum'] = float(z[sup].sum())
+    return res
 
 
 def opd_of(c, shape):
@@ -527,7 +660,7 @@ def run_history(lentil, c):
     steps = []
     for st in c['steps']:
         f = fills[st['fill']]
-        buf[...] = (f != 0) if c['dtype'] == 'bool' else f.astype(c['dtype'])
+        buf[...] = (f != 0) if c['dtype'] == 'bool' else (f * st.get('weight', 1)).astype(c['dtype'])
         snap = buf.copy()
         rec = {}
         try:
@@ -546,7 +679,7 @@ def run_history(lentil, c):
     # references: the single-mode entry point and the same calls on fresh arrays, after the history
     for st, rec in zip(c['steps'], steps):
         f = fills[st['fill']]
-        fresh = (f != 0) if c['dtype'] == 'bool' else f.astype(c['dtype'])
+        fresh = (f != 0) if c['dtype'] == 'bool' else (f * st.get('weight', 1)).astype(c['dtype'])
         try:
             rec['ref_modes'] = [np.asarray(lentil.zernike(fresh.copy(), j, normalize=st['normalize']), dtype=float).tolist()
                                 for j in modes]
@@ -852,6 +985,33 @@ def oracle(c, impl):
         N = norm_textbook(m, n, True)
         if not np.all(np.abs(raw * N - zj) <= 1e-12 * (1 + np.abs(zj))):
             return f'normalize=True is not normalize=False times sqrt({"n+1" if m == 0 else "2(n+1)"}) for j={c["j"]}'
+        # the same data in other legal array_like forms / other values on the same support
+        for name, v in impl.get('variants', {}).items():
+            if 'err' in v:
+                return f'the mask given as {name}: raised {v["err"]} (the plain ndarray with the same data is accepted)'
+            if v.get('changed'):
+                return f'the mask given as {name}: the caller\'s array was modified'
+            if 'coords_dev' in v and not v['coords_dev'] <= 1e-12:
+                return (f'zernike_coordinates of the mask given as {name} differs from that of the plain ndarray with the same '
+                        f'support by {v["coords_dev"]!r} (rho / cos theta / sin theta)')
+            if not v['mode_dev'] <= 1e-12 * (1 + float(np.max(np.abs(zj)))):
+                return f'zernike(mask, {c["j"]}) with the mask given as / called with {name} differs by {v["mode_dev"]!r}'
+        return None
+    if c['op'] == 'coords_large':
+        if 'err' in impl:
+            return f'zernike_coordinates / zernike raised {impl["err"]} on a {c["shape"]} {c["dtype"]} mask'
+        what = f'{c["shape"][0]}x{c["shape"][1]} {c["dtype"]} mask ({impl["npix"]} masked samples, centroid {impl["centroid"]})'
+        if not impl['rho_dev'] <= TOL:
+            return (f'{what}: rho{impl["at"]} = {impl["rho_at"]!r}, about the centroid with rho = 1 at the farthest masked sample '
+                    f'it is {impl["exp_at"]!r}')
+        if not abs(impl['max_rho_on_mask'] - 1) <= 1e-12:
+            return f'{what}: largest rho over the mask is {impl["max_rho_on_mask"]!r}, not 1'
+        if impl['outside_nonzero'] or not impl['shape_ok']:
+            return f'{what}: zernike(mask, {c["j"]}) is non-zero outside the mask or has the wrong shape'
+        if 'mode_dev' in impl and not impl['mode_dev'] <= 1e-8:
+            return f'{what}: zernike(mask, {c["j"]}) deviates by {impl["mode_dev"]!r} from the radial polynomial about the centroid'
+        if 'tilt_sum' in impl and not abs(impl['tilt_sum']) <= 1e-9 * impl['npix'] * 4:
+            return f'{what}: tilt mode {c["j"]} sums to {impl["tilt_sum"]!r} over the mask: origin is not the centroid'
         return None
     if c['op'] == 'history':
         return oracle_history(c, impl)
